@@ -5,6 +5,8 @@ import (
 	"errors"
 	"fmt"
 	"github.com/trustbloc/sidetree-go/pkg/document"
+	"github.com/trustbloc/sidetree-go/pkg/patch"
+	"github.com/trustbloc/sidetree-go/pkg/versions/1_0/operationparser/patchvalidator"
 	"runtime"
 	"sort"
 	"strings"
@@ -209,6 +211,19 @@ func c20Calls(r *fw.Rand, n int) []c20Call {
 			did = did[:len(did)-3] + "AAA" // tampered: must be refused identically
 		}
 		sreq := sc.Built.Request
+		// the same suffix with another initial state (a valid DID and a tampered one side by side, several times): each call gets its own answer
+		goodDID := "did:ion:" + sc.Built.Suffix + ":" + oracle.B64(sc.Built.Request)
+		sc2 := planStep(&histCtx{r: r, proto: proto, code: 18, keyType: gen.Ed25519, hasIETF: false}, 'c', "valid", 1000, nil, func(h *histCtx, s *opStep) { s.Spec.Patches = small })
+		twinDID := "did:ion:" + sc.Built.Suffix + ":" + oracle.B64(sc2.Built.Request)
+		for rep := 0; rep < 3; rep++ {
+			for _, d := range []string{goodDID, twinDID} {
+				d := d
+				calls = append(calls, c20Call{"dochandler", func(e *c20Env, keep keepFn) string {
+					res, err := e.handler.ResolveDocument(d)
+					return resStr(res, err)
+				}})
+			}
+		}
 		calls = append(calls, c20Call{"dochandler", func(e *c20Env, keep keepFn) string {
 			res, err := e.handler.ResolveDocument(did)
 			if err == nil {
@@ -357,8 +372,17 @@ func c20Stress(c *fw.Case, goroutines, procs, ncalls int) {
 	}
 	want := make([]string, len(calls))
 	noKeep := func(func() string) {}
-	for i, cl := range calls {
-		want[i] = cl.f(seqEnv, noKeep)
+	// in every other case the concurrent run comes FIRST, so that anything initialised on first use is first used concurrently
+	seqFirst := c.Idx%2 == 1
+	sequential := func() {
+		for i, cl := range calls {
+			want[i] = cl.f(seqEnv, noKeep)
+		}
+	}
+	if seqFirst {
+		sequential()
+	} else {
+		c.Count("concurrent-run-before-sequential-reference", 1)
 	}
 	// concurrent run on ONE shared instance of each component
 	env, _ := newC20Env()
@@ -393,6 +417,9 @@ func c20Stress(c *fw.Case, goroutines, procs, ncalls int) {
 	}
 	close(startGate)
 	wg.Wait()
+	if !seqFirst {
+		sequential()
+	}
 	c.Evals(len(calls))
 	c.Count("stress-calls", len(calls))
 	perComp := map[string]int{}
@@ -682,7 +709,121 @@ func c20History(c *fw.Case, kind string, clients, opsPerClient, procs int) {
 	c.Sample(map[string]interface{}{"registry": kind, "clients": clients, "keys": keys, "operations": len(hist), "first_operations": fmt.Sprint(hist[:min(4, len(hist))])})
 }
 
+// c20FirstUse is run as the very first case of each worker process: many goroutines at once take every key type x purpose
+// combination, every patch action, every signing key type and both hash algorithms through validation, parsing, application,
+// signature verification, canonicalization and transformation - so that whatever the library initialises on first use is first used
+// concurrently (a warm-up by an earlier sequential call would hide an unsynchronised first use from the race detector).
+func c20FirstUse(c *fw.Case) {
+	r := c.Rng
+	var docs []map[string]interface{}
+	for _, typ := range gen.DocKeyTypes {
+		for _, pur := range gen.Purposes {
+			if !gen.PurposeAllowed(typ, pur) {
+				continue
+			}
+			for _, material := range []string{"jwk", "b58"} {
+				if material == "b58" && typ == gen.TJwk2020 {
+					continue
+				}
+				docs = append(docs, gen.DocKey(r, "k1", typ, []string{pur}, material))
+			}
+		}
+	}
+	var patches []patch.Patch
+	for _, k := range docs {
+		if lp, err := sut.ToPatch(gen.PAddKeys(k)); err == nil {
+			patches = append(patches, lp)
+		}
+	}
+	for _, raw := range []map[string]interface{}{gen.PAddServices(gen.RandService(r, "svc1")), gen.PRemoveKeys("k1"), gen.PRemoveServices("svc1"), gen.PAddAka("did:example:a"), gen.PRemoveAka("did:example:a"),
+		gen.PReplace(gen.RandKeys(r, 2), gen.RandServices(r, 1)), gen.PJSON(map[string]interface{}{"op": "add", "path": "/foo", "value": 1})} {
+		if lp, err := sut.ToPatch(raw); err == nil {
+			patches = append(patches, lp)
+		}
+	}
+	proto := histProto(true)
+	type opItem struct {
+		anch *operation.AnchoredOperation
+		prev *protocol.ResolutionModel
+	}
+	var ops []opItem
+	for _, kt := range gen.SigningKeyTypes {
+		for _, code := range []uint64{18, 19} {
+			h := &histCtx{r: r, proto: proto, code: code, keyType: kt, hasIETF: true}
+			cs := planStep(h, 'c', "valid", 1000, nil, nil)
+			ops = append(ops, opItem{anchoredOf(cs, cs.Built.Suffix), &protocol.ResolutionModel{}})
+			// previous state written by hand: no library call is made before the storm
+			base := &protocol.ResolutionModel{Doc: document.Document{}, UpdateCommitment: cs.Spec.UpdateCommitment, RecoveryCommitment: cs.Spec.RecoveryCommitment}
+			for _, typ := range []byte("urd") {
+				s := planStep(h, typ, "valid", 2000, nil, nil)
+				ops = append(ops, opItem{anchoredOf(s, cs.Built.Suffix), base})
+			}
+		}
+	}
+	env, err := newC20Env()
+	if err != nil {
+		c.Failf("env", nil, "cannot build components: %v", err)
+		return
+	}
+	fresh := sut.NewStack(proto) // parser / applier / composer that have not been used yet
+	const G = 24
+	results := make([]string, G)
+	var wg sync.WaitGroup
+	gate := make(chan struct{})
+	for g := 0; g < G; g++ {
+		wg.Add(1)
+		go func(g int) {
+			defer wg.Done()
+			defer func() {
+				if rec := recover(); rec != nil {
+					results[g] = fmt.Sprintf("PANIC:%v", rec)
+				}
+			}()
+			<-gate
+			var sb strings.Builder
+			for _, lp := range patches {
+				fmt.Fprint(&sb, patchvalidator.Validate(lp) == nil, ";")
+				d, err := fresh.Composer.ApplyPatches(document.Document{}, []patch.Patch{lp})
+				fmt.Fprint(&sb, err == nil, ";")
+				if err == nil {
+					res, terr := env.didTr.TransformDocument(&protocol.ResolutionModel{Doc: d, UpdateCommitment: "u", RecoveryCommitment: "r"}, protocol.TransformationInfo{"id": "did:ion:EiFirst", "published": true})
+					sb.WriteString(resStr(res, terr))
+				}
+			}
+			for _, o := range ops {
+				res, err := fresh.Applier.Apply(o.anch, o.prev)
+				sb.WriteString(resStr(res, err))
+				_, perr := fresh.Parser.Parse("did:sidetree", o.anch.OperationRequest)
+				fmt.Fprint(&sb, perr == nil, ";")
+			}
+			results[g] = sb.String()
+		}(g)
+	}
+	close(gate)
+	wg.Wait()
+	c.Count("first-use-storm-calls", G*(2*len(patches)+2*len(ops)))
+	c.Evals(G)
+	c.Sig("first-use")
+	for g := 1; g < G; g++ {
+		if results[g] != results[0] {
+			c.Failf("first-use-results-differ", map[string]interface{}{"goroutine_0": firstN(results[0], 400), "goroutine": g, "other": firstN(results[g], 400)}, "goroutines making the same first calls concurrently got different results")
+			break
+		}
+	}
+}
+
+func firstN(s string, n int) string {
+	if len(s) > n {
+		return s[:n]
+	}
+	return s
+}
+
 func runC20(r *fw.Runner) {
+	// the first cases of the run are the first case of each worker process
+	for i := 0; i < 12; i++ {
+		r.Case("first-use-storm", func(c *fw.Case) { c20FirstUse(c) })
+	}
 	gs := []int{2, 8, 32}
 	procs := []int{1, 2, 4, 16}
 	seeds := r.N(6, 24)
